@@ -48,22 +48,23 @@ claim("C19", "E3", "exhaustive type product x hypothesis generated networks vs c
       "without underscores (third-party object_params limitation).")
 
 _E1NOTE = "Model executor and model state pools at the selftests' seams (run_test_task, node.door, login, spawner); virtual-clock loop; memoised third-party parser and faster Params.object_params (self-checked); run parameters patched into parsed nodes. Scenarios come from the shipped suite only."
-_E1TEXT = 'Generated traversals of the real graph code (real parse, real traverse_object_trees/traverse_node/reverse_node/run_test_node/run_workers) on a virtual clock: scenario x run parameters x initial pools x durations x outcomes; the oracle is an invariant over the recorded event history. '
+_E1TEXT = 'Generated traversals of the real graph code (real parse, real traverse_object_trees/traverse_node/reverse_node/run_test_node/run_workers) on a virtual clock: scenario (a catalogue of selections x worker sets x parsing modes over the shipped suite, shuffled by the seed, plus randomly composed selections) x run parameters x initial pools x durations x outcomes; the oracle is an invariant over the recorded event history. '
 claim("C01", "E1", "hypothesis generated traversal histories (virtual-clock simulation) vs availability invariant",
       _E1TEXT + "C01: at every test start each required non-root state must be in the worker's own pool or in a listed "
       "and scope-permitted pool, unless its producer or the object's creation had a non-PASS attempt before, or the "
-      "object is permanent with an externally given state. Two classes are listed as known findings (C01-F1, C01-F2).",
+      "object is permanent with an externally given state. Two root causes are listed as known findings (C01-F1; C01-F2/F3/F4).",
       _E1NOTE)
 claim("C02", "E1", "hypothesis generated traversal histories vs termination / definite-result invariants",
       _E1TEXT + "C02: the run must complete without deadlock, traversal error or exceeding deterministic step and "
       "virtual-time bounds (a busy loop is caught by a step counter), every selected test composable with a worker "
       "is executed, no node keeps a pending UNKNOWN result, a dry run executes nothing and changes no state. Found "
-      "and fixed: a creation-step retry livelock and the pending placeholder left for unreported results.",
+      "and fixed: a creation-step retry livelock and the pending placeholder left for unreported results. Progress-"
+      "relative watchdogs (idle virtual time, execution count, spinning) report a run that cannot end within seconds.",
       _E1NOTE + " Step bounds are generous constants derived from the run's own size.")
 claim("C03", "E1", "hypothesis generated traversal histories vs execution-count invariant per reuse scope",
       _E1TEXT + "C03: executions per (worker-invariant identity, reuse scope) <= 1 or max_tries; none when all states "
       "were present at the scope's first scan; flat nodes and clone sources never executed. Results that are never "
-      "reported are not generated here (they overrun the timeout). One class is a known finding (C03-F1).",
+      "reported are not generated here (they overrun the timeout). Two classes are known findings (C03-F1, C03-F2).",
       _E1NOTE)
 claim("C04", "E1", "hypothesis generated schedules (tied and near-timeout durations) vs interval-overlap invariant",
       _E1TEXT + "C04: sweep-line over execution intervals per (identity, scope): overlap <= max_concurrent_tries with "
@@ -74,7 +75,8 @@ claim("C05", "E1", "hypothesis generated traversal histories vs removal-ordering
       _E1TEXT + "C05: every unset request must concern a state marked for removal, no dependant within the reuse "
       "scope may run at that moment or start later without the producer re-running, reuse/block pool filters issue "
       "no copy while backing out, and reusable states produced in the run are still in their producer's pool at the "
-      "end. One class is a known finding (C05-F1).",
+      "end. One class is a known finding (C05-F1, remote remover not waiting for another swarm). Found and fixed: "
+      "premature removal under on-demand parsing (7b8a963).",
       _E1NOTE)
 claim("C08", "E1", "hypothesis generated traversal histories vs worker/location exactness invariant",
       _E1TEXT + "C08: every execution happens on the worker the test was parsed for, with that worker's connection "
@@ -103,7 +105,7 @@ claim("C13", "E3", "exhaustive scope x source-layout enumeration + hypothesis fo
       "classification; longer lists by hypothesis. Two root-scope signatures are known findings (C13-F1, C13-F2).",
       "Stub transport and stub local backend substituted through the class attributes as in StatesPoolTest; an "
       "additional generated part runs the real QCOW2ImageTransfer/TransferOps with fake end-point-tagged remote "
-      "sessions (login, remote hash, scp and qemu-img replaced) for sources behind shared gateways.")
+      "sessions (login, remote hash, scp and qemu-img replaced) for sources behind shared gateways, and a third part runs the real compare_chain/compare over drawn cache and pool files (cache validity of images, backing chain and memory dump).")
 
 claim("C10", "E1", "exhaustive should_rerun decision table + hypothesis generated outcome/retry/replay histories vs reference rule",
       "A 630k-row table of TestNode.should_rerun on real parsed nodes (max_tries x recorded status sequences x rerun/stop "
@@ -154,12 +156,12 @@ claim("C15", "E1", "hypothesis generated update requests through Manu.run vs ref
       _E1NOTE + " The reference graph of the remove set is parsed by the real parser and exported (E2); path and "
       "descendants are computed by the check. from_state is always an ancestor of to_state.")
 claim("C20", "E1", "hypothesis generated setup chains through Manu.run vs per-step execution multiset, order and return code",
-      "Generated chains of 1-4 distinct manual steps x vm selections/variants x worker sets (incl. workers excluding a "
-      "selected variant) x a failing or raising step at any position x extra parameters run through Manu.run on the "
+      "Generated chains of 1-4 manual steps (repetitions allowed) x vm selections/variants x worker sets (incl. workers excluding a "
+      "selected variant) x a failing or raising step (drawn exception type) at any position x extra parameters (incl. user-given mode keys) run through Manu.run on the "
       "simulator: every step executes exactly once per selected vm variant and compatible worker (per-vm tools) or once "
       "per compatible worker for all vms (multi-vm tools), with the step's and the user's parameters, never for "
       "unselected vms, in chain order; the return code is 1 exactly when a step failed or raised, later steps still run. "
-      "One defect found and fixed (create/clean/collect dropped the return code).",
+      "Three defects found and fixed (create/clean/collect dropped the return code; repeated steps of a chain were dropped; a raising create/clean/collect left its temporary parameters behind).",
       _E1NOTE + " Chains (steps may repeat) exclude start/stop/run/list/update; a raising step only with one worker.")
 
 _pending = "check not built yet in this round (planned in DESIGN.md section 4); not claimed until it runs"
